@@ -28,7 +28,11 @@ fn run_case(case: &str) -> String {
         }
         "P" => {
             let sh = sharder(h(f[1]) as u16, 0);
-            hex_u(sh.shard_of_source_port(h(f[2]) as u16) as u128)
+            let port = h(f[2]) as u16;
+            match catch(move || sh.shard_of_source_port(port)) {
+                Ok(s) => hex_u(s as u128),
+                Err(_) => "panic".into(),
+            }
         }
         "I" | "D" => {
             let (n, s, lo, hi) = (h(f[1]) as u16, h(f[2]) as u32, h(f[3]) as u16, h(f[4]) as u16);
@@ -68,9 +72,10 @@ fn run_case(case: &str) -> String {
                 };
                 m.insert(k.to_string(), vals);
             }
-            match hooks::parse_shard_info(&m) {
-                Ok((s, n, msb)) => format!("ok {} {} {}", hex_u(s as u128), hex_u(n as u128), hex_u(msb as u128)),
-                Err(e) => format!("err {}", e),
+            match catch(move || hooks::parse_shard_info(&m)) {
+                Ok(Ok((s, n, msb))) => format!("ok {} {} {}", hex_u(s as u128), hex_u(n as u128), hex_u(msb as u128)),
+                Ok(Err(e)) => format!("err {}", e),
+                Err(_) => "panic".into(),
             }
         }
         _ => "error unknown-case".into(),
